@@ -343,7 +343,8 @@ def amplitude_probe(ctx):
     from xitorch.integrate import solve_ivp
     ts = torch.tensor([0.0, 0.7, 1.5, 3.0], dtype=DT)
     for meth in ("rk45", "rk23"):
-        for amp, atol, rtol in ((1e-6, 1e-16, 1e-9), (1e3, 1e-7, 1e-9), (1.0, 1e-10, 1e-9)):
+        # (atol = 0 exactly: a purely relative control is a legal option value; round-4 seed C08/12 replaced it by the default)
+        for amp, atol, rtol in ((1e-6, 1e-16, 1e-9), (1e3, 1e-7, 1e-9), (1.0, 1e-10, 1e-9), (1e-6, 0.0, 1e-9)):
             a = torch.tensor([0.8, 1.7], dtype=DT, requires_grad=True)
             y0 = (amp * torch.tensor([1.0, -0.6], dtype=DT)).requires_grad_()
             w = torch.tensor([[0.0, 0.0], [1.0, -2.0], [0.5, 0.3], [2.0, 1.0]], dtype=DT)
